@@ -453,6 +453,9 @@ func init() {
 			"'cluster object' = a key listed in the phase being torn down; deletes of PKO's own API objects belong to C04/C08/C14",
 			"scheduling points: every API request of the pass (before it is sent) and third-party thread start",
 		},
-		Subs: []*checks.Sub{{Name: "interleavings", Shards: func(string) int { return 16 }, Run: run, Replay: replay}},
+		Subs: []*checks.Sub{
+			{Name: "interleavings", Shards: func(string) int { return 16 }, Run: run, Replay: replay},
+			{Name: "orphan-system", Shards: func(string) int { return 4 }, Run: runOrphan, Replay: replayOrphan, Parallel: true},
+		},
 	})
 }
